@@ -331,9 +331,131 @@ def _flag_from_match(body):
                 stack.append(v)
 
 
+def _walk_dicts(x):
+    stack = [x]
+    while stack:
+        y = stack.pop()
+        if isinstance(y, dict):
+            yield y
+            for k, v in y.items():
+                if k in ("sp", "lit", "val"):
+                    continue
+                if isinstance(v, (dict, list)):
+                    stack.append(v)
+        elif isinstance(y, list):
+            stack.extend(y)
+
+
+def _deferred_init(body):
+    """NF13  let x; if c { s1; x = A; s2 } else { x = B }   ->   let x = if c { s1; let t = A; s2; t } else { B }
+    (also `match`, else-if chains and branches that diverge without assigning): deferred initialisation and
+    initialisation by a branching expression become the same tree."""
+    lids = [y["lid"] for y in _walk_dicts(body) if "lid" in y and isinstance(y["lid"], int)]
+    fresh = [max(lids or [0]) + 100000]
+
+    def assigns(n, lid):
+        return [y for y in _walk_dicts(n) if y.get("k") in ("Assign", "AssignOp") and isinstance(y.get("l"), dict) and
+                _peel_block(y["l"]).get("k") == "Local" and _peel_block(y["l"]).get("lid") == lid]
+
+    def branch(b, lid, ty, name):
+        """rewritten branch or None"""
+        if not isinstance(b, dict):
+            return None
+        if b.get("k") == "If" and b.get("else") is not None:
+            return split(b, lid, ty, name)
+        if b.get("k") == "Match":
+            return split(b, lid, ty, name)
+        if b.get("k") != "Block":
+            return None
+        inner = _peel_block(b)
+        if inner is not b and inner.get("k") in ("If", "Match"):
+            r = split(inner, lid, ty, name)
+            return None if r is None else dict(b, expr=r, ty=ty, nf="NF13")
+        a = assigns(b, lid)
+        if not a:
+            return b if b.get("ty") == "!" else None
+        if len(a) != 1 or a[0].get("k") != "Assign":
+            return None
+        st = list(b.get("stmts") or ())
+        at = None
+        for i, s_ in enumerate(st):
+            if s_.get("k") == "ExprStmt" and s_.get("e") is a[0]:
+                at = i
+        if at is None and b.get("expr") is a[0]:
+            return dict(b, stmts=st, expr=a[0]["r"], ty=ty, nf="NF13")
+        if at is None:
+            return None
+        rest = st[at + 1:]
+        if not rest and b.get("expr") is None:
+            return dict(b, stmts=st[:at], expr=a[0]["r"], ty=ty, nf="NF13")
+        if b.get("expr") is not None and b.get("ty") not in ("()", None):
+            return None
+        fresh[0] += 1
+        t = fresh[0]
+        sp = a[0].get("sp")
+        for y in _walk_dicts(rest + ([b["expr"]] if b.get("expr") is not None else [])):
+            if y.get("k") == "Local" and y.get("lid") == lid:
+                y["lid"] = t
+                y["name"] = "%s_value" % name
+        tname = "%s_value" % name
+        let = {"k": "LetStmt", "pat": {"k": "Bind", "name": tname, "lid": t, "byref": False, "mut": False, "sp": sp, "src_name": tname},
+               "init": a[0]["r"], "sp": sp, "nf": "NF13"}
+        tail_stmts = rest + ([{"k": "ExprStmt", "e": b["expr"], "semi": True}] if b.get("expr") is not None else [])
+        end = (b.get("sp") or [0, 0, 0, 0])
+        return dict(b, stmts=st[:at] + [let] + tail_stmts, ty=ty, nf="NF13",
+                    expr={"k": "Local", "name": tname, "lid": t, "ty": ty, "sp": [end[1], end[1]] + list(end[2:]), "src_name": tname})
+
+    def split(n, lid, ty, name):
+        if n.get("k") == "If":
+            if any(y.get("k") == "Local" and y.get("lid") == lid for y in _walk_dicts(n["cond"])):
+                return None
+            t_, e_ = branch(n["then"], lid, ty, name), branch(n.get("else"), lid, ty, name)
+            if t_ is None or e_ is None:
+                return None
+            return dict(n, then=t_, ty=ty, nf="NF13", **{"else": e_})
+        if n.get("k") == "Match" and n.get("src", "match") == "match":
+            if any(y.get("k") == "Local" and y.get("lid") == lid for y in _walk_dicts(n["scrut"])):
+                return None
+            arms = []
+            for a in n["arms"]:
+                if a.get("guard") is not None and any(y.get("k") == "Local" and y.get("lid") == lid for y in _walk_dicts(a["guard"])):
+                    return None
+                body_ = a["body"] if a["body"].get("k") == "Block" else {"k": "Block", "stmts": [], "expr": a["body"], "ty": a["body"].get("ty"), "sp": a["body"].get("sp")}
+                if body_ is not a["body"] and body_["expr"].get("k") == "Assign":
+                    body_ = {"k": "Block", "stmts": [], "expr": body_["expr"], "ty": "()", "sp": body_.get("sp")}
+                r = branch(body_, lid, ty, name)
+                if r is None:
+                    return None
+                arms.append(dict(a, body=r))
+            return dict(n, arms=arms, ty=ty, nf="NF13")
+        return None
+
+    for x in list(_walk_dicts(body)):
+        if x.get("k") != "Block" or not isinstance(x.get("stmts"), list):
+            continue
+        st = x["stmts"]
+        i = 0
+        while i + 1 < len(st):
+            a, nxt = st[i], st[i + 1]
+            if a.get("k") == "LetStmt" and a.get("init") is None and a.get("els") is None and a.get("pat", {}).get("k") == "Bind" and \
+                    nxt.get("k") == "ExprStmt" and isinstance(nxt.get("e"), dict):
+                lid, name = a["pat"].get("lid"), a["pat"].get("name")
+                n = _peel_block(nxt["e"])
+                al = assigns(n, lid)
+                ty = _peel_block(al[0]["l"]).get("ty") if al else None
+                # every branch that completes must assign (checked by the compiler for the original); all branches
+                # that assign do so exactly once at their top level
+                r = split(n, lid, ty, name) if (al and ty and n.get("k") in ("If", "Match")) else None
+                if r is not None:
+                    st[i] = dict(a, init=r, nf="NF13")
+                    del st[i + 1]
+            i += 1
+
+
 def normalize(bodies, consts):
     nz = Normalizer(consts)
     for b in bodies:
         nz.body(b)
         if b.get("body") is not None:
+            _deferred_init(b["body"])
             _flag_from_match(b["body"])
